@@ -6,6 +6,34 @@ CHECKS = {
    technique="explicit-state exploration of all operation sequences up to a depth bound on the real Writer in lock-step with its compress/* twin (stateless DFS with replay, merged on private-state fingerprints)",
    text="Every sequence of <=4 (quick) / <=6 (thorough) operations over {Write(empty|small|large), Flush, Close, Reset} is executed on the real flate/gzip/zlib Writer at every level -2..9, both windows and with dictionaries, at every runnable acceleration level, next to the standard library's Writer; per call the nil-ness of the error must agree, nothing may panic, nothing may be emitted after a successful Close, and the bytes at the first Close must decode (stdlib, reference inflater, fastgo Reader). Constructors are probed for every level -5..12. Exhaustive within the bound, which is where call-order defects of a four-method API live.",
    note="Trusted: the Go toolchain's compress/* as reference for which call errs; the reference inflater (self-checked against the stdlib in C02). Bound: sequence length; three data pieces."),
+ "C01": dict(cat="model_checking", design="§5 C01",
+   technique="bounded exhaustive enumeration of inputs (small-scope strings, size ladders around internal thresholds) and of Write/Flush call sequences on the real Writer, three independent inflaters as oracle",
+   text="For every setting the flate constructors accept (levels -2..9, both windows, dictionaries) and every runnable acceleration level: every string over {a,b} up to length 10 (12 thorough) and {a,b,c} up to 6 (8), six content kinds at every size 0..300 and in windows around every internal threshold (buffer fill, slide, 64 KiB wrap, token cap), and every sequence {Write(piece),Flush}^<=2 (3) + Close over pieces aimed at those thresholds. Each emitted stream must be decoded to the input by compress/flate, by an independent reference inflater (which also proves the stream complete and ending at the last byte) and by fastgo's Reader; guard zones around internal buffers must stay intact.",
+   note="Trusted: compress/flate and the reference inflater as inflaters. Bounds: data values come from six generators plus exhaustive 2-3 letter strings; sizes <= 262145; sequences <= 3 ops."),
+ "C09": dict(cat="model_checking", design="§5 C09",
+   technique="exhaustive enumeration of Write partitions (all cut subsets up to a size bound from a threshold-aimed candidate set, with zero-length writes) on the real Writer, differential against the one-Write run",
+   text="For every accelerated setting, data set and Flush-position set, every subset of the cut-candidate set of size <=1, every pair (reduced set in quick, full set in thorough), the all-candidates partition and the 1-byte partition are executed, each also with zero-length Writes around every cut; the emitted bytes must equal those of the run that writes each Flush segment in one call. Final private-state fingerprints are counted: one per (setting,data,Flush set) means full confluence.",
+   note="Trusted: nothing beyond the engine; the reference is the same code fed in one piece, whose output is additionally decoded."),
+ "C10": dict(cat="model_checking", design="§5 C10",
+   technique="exhaustive enumeration of Write/Flush sequences and of Flush positions in small-scope strings on the real Writers; oracle on every flushed prefix with two independent inflaters",
+   text="Every sequence over {Write(piece),Flush}^<=3 (4 thorough), including Flush first, repeated Flush and Flush with nothing pending, for every accelerated flate setting and gzip/zlib at levels -2,1,2,-1,6, plus every small-scope string with a Flush after every prefix (the bit offset a block ends on depends on the data). At each successful Flush the bytes emitted so far, alone, must decode (compress/flate and reference inflater) to exactly the data written so far and then ask for more input at a byte-aligned block boundary; the closed stream must satisfy C01.",
+   note="Trusted: compress/flate and the reference inflater as 'any conforming inflater'."),
+ "C12": dict(cat="model_checking", design="§5 C12",
+   technique="exhaustive enumeration of first-life histories (incl. abandoned streams and failing destinations) x second-life histories on the real Writer, differential against a fresh Writer",
+   text="Every first life of <=2 (3 thorough) operations over {Write(piece leaving a distinct residue), Flush, Close, destination starts failing}, then Reset(new sink), then each of six second lives; bytes and errors must equal those of a fresh Writer of the same setting, the old sink must stay untouched, and the output must decode. flate (accelerated, delegated, dictionary), gzip and zlib.",
+   note="Trusted: a freshly constructed Writer as the reference model."),
+ "C14": dict(cat="fault_enumeration", design="§5 C14",
+   technique="exhaustive fault enumeration: for every operation sequence up to a bound, every destination call index fails once (two short-count variants), followed by every bounded continuation, on the real Writer",
+   text="For every sequence S of <=2 (3) operations and EVERY k up to the number of destination calls of the fault-free run, the k-th call fails with a fresh error value; the operation in progress must return exactly that value, every later call must fail without a further destination call, nothing may panic or write outside the internal buffers (guard zones), and Reset must revive the Writer. All accelerated settings, delegated levels 0 and 6, gzip and zlib.",
+   note="Trusted: the sink's call accounting. A short count with nil error is outside the statement."),
+ "C19": dict(cat="model_checking", design="§5 C19",
+   technique="exhaustive enumeration of repeat distances/placements around the window and wrap boundaries on the real Writer; reference inflater reports the maximum back-reference distance",
+   text="Blocks repeated at every distance in [W-3,W+3] and at the slide/wrap-related distances, four block lengths, six placements relative to buffer slide and 64 KiB position wrap, written whole / split inside the repeat / with a Flush in between, plus periodic data with period W-1..W+1; every back-reference in the output is measured by the reference inflater and must not exceed 4096 (4 KiB constructor) or 32768.",
+   note="Trusted: the reference inflater's distance report."),
+ "C20": dict(cat="model_checking", design="§5 C20",
+   technique="exhaustive enumeration of all periods 1..64 x sizes x settings and of adversarial contents x size ladders on the real Writer; the bounds of the statement as oracle",
+   text="Expansion bound n+n/32+256 for five adversarial content kinds at every size of the dense and threshold ladders; effectiveness bound n/32+1200 for EVERY period 1..64, three pattern contents, five sizes >= 64 KiB, levels 1,2,-1, both windows; every runnable acceleration level.",
+   note="Bounds are those of the statement; n <= 400000."),
 }
 NOT_YET = {
 }
